@@ -94,7 +94,7 @@ def _raise_kinds(ex, state, tag):
         rs.pending = []
         rs.assume(b)
         rs.heap[rs.ghost.oid].fields["raised"] = VInt(i + 1)
-        state.pending.append((rs, ex.mk_exc(rs, name, exact=(name != "Exception"))))
+        state.pending.append((rs, ex.mk_exc(rs, name, exact=True)))     # "Exception": a class outside the named families
         state.assume(z3.Not(b))
 
 
@@ -166,10 +166,65 @@ def ext_math_ceil(ex, state, args, kwargs, sv):
     return VInt(c)
 
 
+# ---- RawSocket frame stream (WAMP spec: 1 octet type in the low 3 bits, 24-bit big-endian length, payload), as
+#      recursive spec functions over the octet stream S from position p with receive limit m:
+#      rs_canon = the canonical record [type, length] ++ payload of every complete, acceptable frame, in order;
+#      rs_stop  = the position where that run of complete frames ends
+_IS = z3.SeqSort(z3.IntSort())
+#      They are kept opaque for the solver; their defining equations are supplied where needed as instances
+#      (lemma rs_unfold -- the definition itself; well-founded because a complete frame advances p by at least 4).
+rs_canon = z3.Function("rs_canon", _IS, z3.IntSort(), z3.IntSort(), _IS)
+rs_stop = z3.Function("rs_stop", _IS, z3.IntSort(), z3.IntSort(), z3.IntSort())
+
+
+def rs_len(S, p):
+    return S[p + 1] * 65536 + S[p + 2] * 256 + S[p + 3]
+
+
+def rs_complete(S, p, m):
+    return z3.And(p >= 0, p + 4 <= z3.Length(S), S[p] % 8 <= 2, rs_len(S, p) >= 0, rs_len(S, p) <= m,
+                  p + 4 + rs_len(S, p) <= z3.Length(S))
+
+
+def rs_bad(S, p, m):
+    """a frame header the receiver must refuse: reserved frame type or a length above the announced maximum"""
+    return z3.And(p >= 0, p + 4 <= z3.Length(S), z3.Or(S[p] % 8 > 2, rs_len(S, p) > m))
+
+
+def rs_unfold(S, p, m):
+    """the defining equations of rs_canon / rs_stop at (S, p, m)"""
+    L = rs_len(S, p)
+    c = rs_complete(S, p, m)
+    return z3.And(
+        rs_canon(S, p, m) == z3.If(c, z3.Concat(z3.Unit(S[p] % 8), z3.Unit(L), z3.Extract(S, p + 4, L),
+                                                rs_canon(S, p + 4 + L, m)), z3.Empty(_IS)),
+        rs_stop(S, p, m) == z3.If(c, rs_stop(S, p + 4 + L, m), p))
+
+
+def _hook(ftype):
+    """frame hooks of PrefixProtocol (stringReceived / ping / pong): the frame is recorded as [type, length] ++ payload"""
+    def f(ex, state, args, kwargs, sv):
+        g = _g(state)
+        from pyvc.ops import seq_len
+        d = args[0].t
+        g.fields["rx"] = VBytes(z3.Concat(g.fields["rx"].t, z3.Unit(z3.IntVal(ftype)), z3.Unit(seq_len(ex, state, d)), d))
+        return VNone
+    return f
+
+
 def common_shapes(reg):
+    reg.native_spec("canon", lambda ex, state, S, p, m: VBytes(rs_canon(S.t, ex.num(p), ex.num(m))))
+    reg.native_spec("stop", lambda ex, state, S, p, m: VInt(rs_stop(S.t, ex.num(p), ex.num(m))))
+    reg.native_spec("complete", lambda ex, state, S, p, m: VBool(rs_complete(S.t, ex.num(p), ex.num(m))))
+    reg.native_spec("bad", lambda ex, state, S, p, m: VBool(rs_bad(S.t, ex.num(p), ex.num(m))))
+    reg.lemma_fn("seq_shift4", lambda ex, state, S, p: VBool(_shift4(S.t, ex.num(p))))
+    reg.lemma_fn("rs_unfold", lambda ex, state, S, p, m: VBool(rs_unfold(S.t, ex.num(p), ex.num(m))))
+    reg.external("prefix.stringReceived", _hook(0))
+    reg.external("prefix.ping", _hook(1))
+    reg.external("prefix.pong", _hook(2))
     reg.shape("Ghost", ghost=True, fields={
         "written": "bytes", "n_drop": "nat", "n_close": "nat", "framed": "bytes", "n_attach": "nat", "n_onclose": "nat",
-        "n_onmessage": "nat", "n_written": "nat", "last_written": "bytes", "raised": "int", "unser": "any", "decoded": "bool",
+        "n_onmessage": "nat", "n_written": "nat", "last_written": "bytes", "raised": "int", "unser": "any", "decoded": "bool", "rx": "bytes",
         "delivered": "bytes"})
     reg.external("session.onMessage", ext_on_message)
     reg.external("serializer.unserialize", ext_unserialize)
@@ -375,6 +430,387 @@ def build(reg):
             raises={"TransportLost": "self._session is None"},
             raises_ensures={"TransportLost": ["ghost.n_drop == old(ghost.n_drop)"]}, **common)
 
+    build_asyncio(reg, common)
+
+
+def build_asyncio(reg, common):
+    # ============================================================ asyncio RawSocket
+    reg.shape("AioTransport", fields={}, methods={"write": "tw.write", "close": "tw.close", "abort": "tw.drop"})
+    reg.shape("AioTransportNoAbort", fields={}, methods={"write": "tw.write", "close": "tw.close"})
+    reg.shape("AioFactory", fields={"_serializers": "dict:int->sym:SerRec", "_serializer": "sym:SerRec",
+                                    "_factory": "cb:session_factory"})
+    AIOF = {"log": "logger", "transport": "opt:obj:AioTransport|obj:AioTransportNoAbort", "_buffer": "bytes",
+            "_handshake_done": "bool", "max_length": "int", "max_length_send": "int", "_length_exp": "int",
+            "prefix_length": "const:4", "prefix_format": "const:'!L'", "factory": "obj:AioFactory",
+            "_session": "opt:obj:SessObj", "_serializer": "opt:sym:SerRec", "_transport_details": "obj:TDetails",
+            "peer": "any", "is_server": "any"}
+    ABSENT = ("_session", "_serializer")
+    reg.shape("AioServer", cls=AIR + ":WampRawSocketServerProtocol", fields=AIOF, absent_none=ABSENT)
+    reg.shape("AioClient", cls=AIR + ":WampRawSocketClientProtocol", fields=AIOF, absent_none=ABSENT)
+    reg.contract("autobahn.asyncio.util:transport_channel_id", params={}, returns="any", raises={"Exception+": "True"},
+                 verify=False, **common)
+    B = "self._buffer"
+    # ---- parse_handshake: magic octet, reserved octets, serializer / length nibbles
+    for shape in ("AioServer", "AioClient"):
+        reg.contract(
+            AIR + ":RawSocketProtocol.parse_handshake", name=AIR + ":RawSocketProtocol.parse_handshake<%s>" % shape,
+            params={"self": "obj:" + shape}, returns="tuple:int,int", requires=["len(self._buffer) >= 4"],
+            modifies=["self.max_length_send"],
+            ensures=["%s[0] == 127 and %s[2] == 0 and %s[3] == 0" % (B, B, B),
+                     "result[0] == hs_ser(%s) and result[1] == hs_lexp(%s)" % (B, B),
+                     "self.max_length_send == hs_max_len(%s)" % B],
+            raises={"HandshakeError": "%s[0] != 127 or %s[2] != 0 or %s[3] != 0" % (B, B, B)}, **common)
+        # ---- abort / close (ITransport)
+        reg.contract(
+            AIR + ":WampRawSocketMixinAsyncio.abort", name=AIR + ":WampRawSocketMixinAsyncio.abort<%s>" % shape,
+            params={"self": "obj:" + shape}, modifies=["ghost.n_drop", "ghost.n_close"],
+            ensures=["ghost.n_drop + ghost.n_close == old(ghost.n_drop + ghost.n_close) + 1",
+                     "ghost.n_drop >= old(ghost.n_drop) and ghost.n_close >= old(ghost.n_close)"],
+            # like its Twisted twin: only a transport that is really gone is a lost transport
+            raises={"TransportLost": "self.transport is None"},
+            raises_ensures={"TransportLost": ["ghost.n_drop == old(ghost.n_drop) and ghost.n_close == old(ghost.n_close)"]},
+            **common)
+    # ---- server: reply 7f | exp<<4 | serializer | 00 00 for a supported serializer, the error reply 7f 10 00 00 otherwise
+    SUP = "hs_ser(%s) in self.factory._serializers" % B
+    reg.contract(
+        AIR + ":RawSocketServerProtocol.process_handshake", params={"self": "obj:AioServer"},
+        requires=["len(self._buffer) >= 4", "self.transport is not None", "0 <= self._length_exp <= 15",
+                  "forall(k, 0, 16, implies(k in self.factory._serializers, "
+                  "self.factory._serializers[k].RAWSOCKET_SERIALIZER_ID == k and allocated(self.factory._serializers[k])))"],
+        modifies=["self.max_length_send", "self._serializer", "ghost.written", "ghost.n_drop", "ghost.n_close", "SerRec.*"],
+        ensures=["%s[0] == 127 and %s[2] == 0 and %s[3] == 0 and %s" % (B, B, B, SUP),
+                 "ghost.written == old(ghost.written) + bytes([127, hs_octet2(self._length_exp, hs_ser(%s)), 0, 0])" % B,
+                 "self._serializer is not None and self._serializer.RAWSOCKET_SERIALIZER_ID == hs_ser(%s)" % B,
+                 "self.max_length_send == hs_max_len(%s)" % B,
+                 "ghost.n_drop == old(ghost.n_drop) and ghost.n_close == old(ghost.n_close)"],
+        raises={"HandshakeError": "%s[0] != 127 or %s[2] != 0 or %s[3] != 0 or not (%s)" % (B, B, B, SUP)},
+        raises_ensures={"HandshakeError": [
+            "implies(%s[0] == 127 and %s[2] == 0 and %s[3] == 0, "
+            "ghost.written == old(ghost.written) + bytes([127, 16, 0, 0]))" % (B, B, B),
+            "implies(not (%s[0] == 127 and %s[2] == 0 and %s[3] == 0), ghost.written == old(ghost.written))" % (B, B, B),
+            "old(ghost.n_drop + ghost.n_close) <= ghost.n_drop + ghost.n_close <= old(ghost.n_drop + ghost.n_close) + 1",
+            "ghost.n_close >= old(ghost.n_close) and ghost.n_drop >= old(ghost.n_drop)"]},
+        inline_calls=[AIR + ":WampRawSocketServerProtocol.supports_serializer"], **common)
+    # ---- client: the reply must name the requested serializer; serializer code 0 is the server's error reply
+    reg.contract(
+        AIR + ":RawSocketClientProtocol.process_handshake", params={"self": "obj:AioClient"},
+        requires=["len(self._buffer) >= 4", "self._serializer is not None",
+                  "1 <= self._serializer.RAWSOCKET_SERIALIZER_ID <= 15"],
+        modifies=["self.max_length_send"],
+        ensures=["%s[0] == 127 and %s[2] == 0 and %s[3] == 0" % (B, B, B),
+                 "hs_ser(%s) == self._serializer.RAWSOCKET_SERIALIZER_ID" % B,
+                 "self.max_length_send == hs_max_len(%s)" % B],
+        raises={"HandshakeError": "%s[0] != 127 or %s[2] != 0 or %s[3] != 0 or hs_ser(%s) != "
+                                  "self._serializer.RAWSOCKET_SERIALIZER_ID" % (B, B, B, B)},
+        inline_calls=[AIR + ":WampRawSocketClientProtocol.serializer_id"], **common)
+
+    for shape in ("AioServer", "AioClient"):
+        reg.shapes[shape].fields.update({"_header": "opt:tuple:int,int"})
+        # ---- _on_handshake_complete: the one place a session is created and attached; a failing factory / onOpen
+        #      drops the transport instead of escaping
+        reg.contract(
+            AIR + ":WampRawSocketMixinGeneral._on_handshake_complete",
+            name=AIR + ":WampRawSocketMixinGeneral._on_handshake_complete<%s>" % shape,
+            params={"self": "obj:" + shape}, requires=["self.transport is not None"],
+            modifies=["self._session", "self._transport_details.channel_id", "ghost.n_attach", "ghost.n_drop", "ghost.n_close"],
+            ensures=["ghost.n_attach <= old(ghost.n_attach) + 1",
+                     "ghost.n_attach == old(ghost.n_attach) + 1 or "
+                     "ghost.n_drop + ghost.n_close == old(ghost.n_drop + ghost.n_close) + 1",
+                     "ghost.n_drop + ghost.n_close <= old(ghost.n_drop + ghost.n_close) + 1"], **common)
+        # ---- stringReceived: messages to the session in order; any failure aborts the transport once, nothing escapes
+        reg.contract(
+            AIR + ":WampRawSocketMixinGeneral.stringReceived",
+            name=AIR + ":WampRawSocketMixinGeneral.stringReceived<%s>" % shape,
+            params={"self": "obj:" + shape, "payload": "bytes"},
+            requires=["self._session is not None and self.transport is not None and self._serializer is not None",
+                      "ghost.raised == 0 and not ghost.decoded"],
+            modifies=["ghost.raised", "ghost.unser", "ghost.decoded", "ghost.delivered", "ghost.n_onmessage",
+                      "ghost.n_drop", "ghost.n_close"],
+            ensures=[
+                "implies(ghost.decoded and ghost.raised != 0, ghost.delivered == old(ghost.delivered) + "
+                "bytes(ghost.unser)[0:ghost.n_onmessage - old(ghost.n_onmessage)])",
+                "implies(not ghost.decoded, ghost.delivered == old(ghost.delivered) and "
+                "ghost.n_onmessage == old(ghost.n_onmessage) and ghost.raised != 0)",
+                "implies(ghost.raised == 0, ghost.delivered == old(ghost.delivered) + bytes(ghost.unser) and "
+                "ghost.n_drop + ghost.n_close == old(ghost.n_drop + ghost.n_close))",
+                "implies(ghost.raised != 0, ghost.n_drop + ghost.n_close == old(ghost.n_drop + ghost.n_close) + 1)"],
+            loops={"iter:self._serializer.unserialize(payload)": {"index": "_i", "invariant": [
+                "ghost.raised == 0 and ghost.n_drop == old(ghost.n_drop) and ghost.n_close == old(ghost.n_close) and "
+                "ghost.decoded",
+                "ghost.n_onmessage == old(ghost.n_onmessage) + _i",
+                "ghost.delivered == old(ghost.delivered) + bytes(ghost.unser)[0:_i]"],
+                "modifies": ["ghost.delivered", "ghost.n_onmessage", "ghost.raised"],
+                "hints": ["seq_snoc(ghost.unser, _i)", "seq_snoc(ghost.unser, _i - 1)"]}},
+            hints=["seq_snoc(ghost.unser, ghost.n_onmessage - old(ghost.n_onmessage) - 1)"],
+            # asyncio's CancelledError is a BaseException: task cancellation propagates by design (not an Exception
+            # the ladder is meant to absorb); every Exception is absorbed
+            raises={"CancelledError": "True"},
+            split_exits=True, **common)
+        # ---- transport gone: the session is told once and detached; nothing escapes (also without a session)
+        reg.contract(
+            AIR + ":WampRawSocketMixinAsyncio._on_connection_lost",
+            name=AIR + ":WampRawSocketMixinAsyncio._on_connection_lost<%s>" % shape,
+            params={"self": "obj:" + shape, "exc": "any"}, modifies=["self._session", "ghost.n_onclose"],
+            ensures=["self._session is None",
+                     "implies(old(self._session) is not None, ghost.n_onclose == old(ghost.n_onclose) + 1)",
+                     "implies(old(self._session) is None, ghost.n_onclose == old(ghost.n_onclose))"], **common)
+        reg.contract(
+            AIR + ":WampRawSocketMixinAsyncio.close", name=AIR + ":WampRawSocketMixinAsyncio.close<%s>" % shape,
+            params={"self": "obj:" + shape}, requires=["self.transport is not None"], modifies=["ghost.n_close"],
+            ensures=["old(self._session) is not None and ghost.n_close == old(ghost.n_close) + 1"],
+            raises={"TransportLost": "self._session is None"},
+            raises_ensures={"TransportLost": ["ghost.n_close == old(ghost.n_close)"]}, **common)
+    # ---- the frame decoder: whatever the read boundaries, the hooks see exactly the complete frames of the stream, in
+    #      order, each with exactly its payload; the unconsumed tail (and the cached header of a partial frame) carry
+    #      over; a reserved frame type or an over-long frame closes the transport before anything of it is buffered on
+    reg.shape("AioPrefix", cls=AIR + ":PrefixProtocol", fields={
+        "log": "logger", "transport": "opt:obj:AioTransport", "_buffer": "bytes", "_header": "opt:tuple:int,int",
+        "max_length": "int", "prefix_length": "const:4", "prefix_format": "const:'!L'"},
+        methods={"stringReceived": "prefix.stringReceived", "ping": "prefix.ping", "pong": "prefix.pong"})
+    M = "self.max_length"
+    CACHE = ("(self._header is None or (len(%(b)s) >= %(p)s + 4 and self._header[0] == %(b)s[%(p)s] %% 8 and "
+             "self._header[1] == be24(%(b)s, %(p)s + 1) and self._header[0] <= 2 and self._header[1] <= " + M + "))")
+    S0 = "(old(self._buffer) + data_0)"
+    reg.contract(
+        AIR + ":PrefixProtocol.data_received", params={"self": "obj:AioPrefix", "data": "bytes"},
+        requires=["self.transport is not None", "0 <= self.max_length <= 2**24",
+                  CACHE % {"b": "self._buffer", "p": "0"},
+                  # a cached header belongs to a frame that is not complete yet
+                  "implies(self._header is not None, len(self._buffer) < 4 + self._header[1])"],
+        modifies=["self._buffer", "self._header", "ghost.rx", "ghost.n_close"],
+        ensures=[
+            "ghost.rx == old(ghost.rx) + canon(%s, 0, %s)" % (S0, M),
+            "ghost.n_close == old(ghost.n_close) or ghost.n_close == old(ghost.n_close) + 1",
+            "(ghost.n_close == old(ghost.n_close) + 1) == bad(%s, stop(%s, 0, %s), %s)" % (S0, S0, M, M),
+            "implies(ghost.n_close == old(ghost.n_close), self._buffer == %s[stop(%s, 0, %s):])" % (S0, S0, M),
+            "implies(ghost.n_close == old(ghost.n_close), not complete(self._buffer, 0, %s) and "
+            "not bad(self._buffer, 0, %s))" % (M, M),
+            "implies(ghost.n_close == old(ghost.n_close), %s and "
+            "implies(self._header is not None, len(self._buffer) < 4 + self._header[1]))"
+            % (CACHE % {"b": "self._buffer", "p": "0"})],
+        loops={"while:remaining >= self.prefix_length": {
+            "invariant": [
+                "self._buffer == %s and 0 <= pos <= len(self._buffer) and remaining == len(self._buffer) - pos" % S0,
+                "ghost.n_close == old(ghost.n_close)",
+                "ghost.rx + canon(self._buffer, pos, %s) == old(ghost.rx) + canon(self._buffer, 0, %s)" % (M, M),
+                "stop(self._buffer, pos, %s) == stop(self._buffer, 0, %s)" % (M, M),
+                "self._header is None or pos == 0",
+                CACHE % {"b": "self._buffer", "p": "0"}],
+            "modifies": ["self._header", "ghost.rx", "ghost.n_close"],
+            "hints": ["rs_unfold(self._buffer, pos, %s)" % M, "rs_unfold(self._buffer, 0, %s)" % M],
+            "vars": {"pos": "int", "remaining": "int"}}},
+        hints=["seq_shift4(old(self._buffer) + data, stop(old(self._buffer) + data, 0, %s))" % M],
+        inline_calls=[AIR + ":PrefixProtocol.protocol_error"], **common)
+
+    # ---- RawSocketProtocol.data_received: handshake accumulation, decision, hand-over of the octets that follow
+    SB = "(old(self._buffer) + data)"
+    OK3 = "%s[0] == 127 and %s[2] == 0 and %s[3] == 0" % (SB, SB, SB)
+    VALID = {"AioServer": OK3 + " and hs_ser(%s) in self.factory._serializers" % SB,
+             "AioClient": OK3 + " and hs_ser(%s) == old(self._serializer.RAWSOCKET_SERIALIZER_ID)" % SB}
+    EXTRA_REQ = {
+        "AioServer": ["0 <= self._length_exp <= 15",
+                      "forall(k, 0, 16, implies(k in self.factory._serializers, "
+                      "self.factory._serializers[k].RAWSOCKET_SERIALIZER_ID == k and "
+                      "allocated(self.factory._serializers[k])))"],
+        "AioClient": ["self._serializer is not None", "1 <= self._serializer.RAWSOCKET_SERIALIZER_ID <= 15"]}
+    DROPS = "ghost.n_drop + ghost.n_close"
+    for shape in ("AioServer", "AioClient"):
+        NOTYET = "not old(self._handshake_done) and len(%s) >= 4" % SB
+        reg.contract(
+            AIR + ":RawSocketProtocol.data_received", name=AIR + ":RawSocketProtocol.data_received<%s>" % shape,
+            params={"self": "obj:" + shape, "data": "bytes"},
+            requires=["self.transport is not None", "0 <= self.max_length <= 2**24",
+                      "implies(not self._handshake_done, self._header is None)",
+                      CACHE % {"b": "self._buffer", "p": "0"},
+                      "implies(self._header is not None, len(self._buffer) < 4 + self._header[1])"] + EXTRA_REQ[shape],
+            modifies=["self._buffer", "self._header", "self._handshake_done", "self.max_length_send", "self._serializer",
+                      "self._session", "self._transport_details.channel_id", "ghost.rx", "ghost.written", "ghost.n_close",
+                      "ghost.n_drop", "ghost.n_attach", "SerRec.*"],
+            ensures=[
+                # after the handshake: exactly the frame decoder
+                "implies(old(self._handshake_done), ghost.rx == old(ghost.rx) + canon(%s, 0, %s) and "
+                "ghost.n_attach == old(ghost.n_attach) and ghost.written == old(ghost.written) and "
+                "self._handshake_done)" % (SB, M),
+                # fewer than four octets: accumulate and decide nothing
+                "implies(not old(self._handshake_done) and len(%s) < 4, self._buffer == %s and not self._handshake_done "
+                "and ghost.n_attach == old(ghost.n_attach) and ghost.written == old(ghost.written) and "
+                "ghost.rx == old(ghost.rx) and %s == old(%s))" % (SB, SB, DROPS, DROPS),
+                # valid handshake: exactly one attach attempt, and the octets after the handshake go to the decoder
+                "implies(%s and (%s), self._handshake_done and ghost.n_attach <= old(ghost.n_attach) + 1 and "
+                "ghost.rx == old(ghost.rx) + canon(%s[4:], 0, %s))" % (NOTYET, VALID[shape], SB, M),
+                # anything else is refused: transport closed, no session, nothing decoded
+                "implies(%s and not (%s), not self._handshake_done and ghost.n_attach == old(ghost.n_attach) and "
+                "ghost.rx == old(ghost.rx) and ghost.n_close >= old(ghost.n_close) + 1 and "
+                "self._session is old(self._session))" % (NOTYET, VALID[shape]),
+            ],
+            hints=["rs_unfold(%s[4:], 0, %s)" % (SB, M)],
+            inline_calls=[AIR + ":PrefixProtocol.protocol_error"], **common)
+    # ---- the client opens with 7f | exp<<4 | serializer | 00 00
+    reg.contract(AIR + ":PrefixProtocol.connection_made", params={"self": "obj:AioClient", "transport": "obj:AioTransport"},
+                 returns="none", modifies=["self.transport", "self._transport_details", "self.peer", "self._buffer",
+                                           "self._header", "self._wait_closed"],
+                 ensures=["self.transport is not None and len(self._buffer) == 0 and self._header is None"],
+                 verify=False, **common)
+    reg.shapes["AioClient"].fields.update({"_wait_closed": "any"})
+    reg.contract(
+        AIR + ":RawSocketClientProtocol.connection_made", params={"self": "obj:AioClient", "transport": "obj:AioTransport"},
+        requires=["0 <= self._length_exp <= 15", "1 <= self.factory._serializer.RAWSOCKET_SERIALIZER_ID <= 15",
+                  "allocated(self.factory._serializer)",
+                  "self._serializer is None"],      # a fresh protocol instance: the attribute is not set yet
+        modifies=["self.transport", "self._transport_details", "self.peer", "self._buffer", "self._header",
+                  "self._wait_closed", "self._handshake_done", "self._serializer", "ghost.written", "SerRec.*"],
+        ensures=["not self._handshake_done and len(self._buffer) == 0 and self._header is None",
+                 "ghost.written == old(ghost.written) + bytes([127, hs_octet2(self._length_exp, "
+                 "self.factory._serializer.RAWSOCKET_SERIALIZER_ID), 0, 0])",
+                 "self._serializer.RAWSOCKET_SERIALIZER_ID == self.factory._serializer.RAWSOCKET_SERIALIZER_ID"],
+        inline_calls=[AIR + ":WampRawSocketClientProtocol.serializer_id", AIR + ":RawSocketProtocol.connection_made"],
+        **common)
+
+    build_ws(reg, dict(common, spec_module="specs.rawsocket"))
+
+
+def ext_ws_fail(ex, state, args, kwargs, sv):
+    g = _g(state)
+    g.fields["n_fail"] = VInt(simp(g.fields["n_fail"].t + 1))
+    g.fields["fail_code"] = args[0]
+    return VNone
+
+
+def build_ws(reg, common):
+    # ============================================================ WAMP-over-WebSocket (transport-agnostic mixin)
+    reg.shapes["Ghost"].fields.update({"n_fail": "nat", "fail_code": "int", "n_sendclose": "nat"})
+    reg.external("ws.fail", ext_ws_fail)
+    reg.external("ws.sendClose", _bump("n_sendclose"))
+    reg.external("traceback.format_exc", lambda ex, state, args, kwargs, sv: VStr(z3.String(fresh_name("tb"))))
+    reg.shape("WsSess", fields={"_authid": "any", "_session_id": "any", "_transport": "any"},
+              methods={"onOpen": "session.onOpen", "onClose": "session.onClose", "onMessage": "session.onMessage"})
+    reg.shape("WsFactory", fields={"_factory": "cb:ws_session_factory", "_serializers": "dict:str->sym:SerRec",
+                                   "protocols": "any"})
+    reg.external("ws_session_factory", lambda ex, state, args, kwargs, sv: (
+        _may_raise(ex, state, "factory"), ex.reg.fresh_obj(ex, state, "WsSess", "new_session"))[1])
+    reg.shape("WampWs", cls=WWS + ":WampWebSocketProtocol", fields={
+        "log": "logger", "_serializer": "opt:sym:SerRec", "_session": "opt:obj:WsSess", "factory": "obj:WsFactory",
+        "_onclose_reason": "any"},
+        methods={"_fail_connection": "ws.fail", "sendClose": "ws.sendClose"})
+    # ---- onMessage: messages to the session in order; a WAMP protocol violation (incl. an invalid URI) fails the
+    #      connection with 1002, anything else with 1011; nothing escapes
+    reg.contract(
+        WWS + ":WampWebSocketProtocol.onMessage", params={"self": "obj:WampWs", "payload": "bytes", "isBinary": "bool"},
+        requires=["self._session is not None and self._serializer is not None", "ghost.raised == 0 and not ghost.decoded"],
+        modifies=["ghost.raised", "ghost.unser", "ghost.decoded", "ghost.delivered", "ghost.n_onmessage", "ghost.n_fail",
+                  "ghost.fail_code"],
+        ensures=[
+            "implies(ghost.decoded and ghost.raised != 0, ghost.delivered == old(ghost.delivered) + "
+            "bytes(ghost.unser)[0:ghost.n_onmessage - old(ghost.n_onmessage)])",
+            "implies(not ghost.decoded, ghost.delivered == old(ghost.delivered) and "
+            "ghost.n_onmessage == old(ghost.n_onmessage) and ghost.raised != 0)",
+            "implies(ghost.raised == 0, ghost.delivered == old(ghost.delivered) + bytes(ghost.unser) and "
+            "ghost.n_fail == old(ghost.n_fail))",
+            "implies(ghost.raised != 0, ghost.n_fail == old(ghost.n_fail) + 1)",
+            # 1 = ProtocolError, 2 = InvalidUriError: violations by the peer
+            "implies(ghost.raised == 1 or ghost.raised == 2, ghost.fail_code == 1002)",
+            "implies(ghost.raised > 2, ghost.fail_code == 1011)"],
+        loops={"iter:self._serializer.unserialize(payload, isBinary)": {"index": "_i", "invariant": [
+            "ghost.raised == 0 and ghost.n_fail == old(ghost.n_fail) and ghost.decoded",
+            "ghost.n_onmessage == old(ghost.n_onmessage) + _i",
+            "ghost.delivered == old(ghost.delivered) + bytes(ghost.unser)[0:_i]"],
+            "modifies": ["ghost.delivered", "ghost.n_onmessage", "ghost.raised"],
+            "hints": ["seq_snoc(ghost.unser, _i)", "seq_snoc(ghost.unser, _i - 1)"]}},
+        hints=["seq_snoc(ghost.unser, ghost.n_onmessage - old(ghost.n_onmessage) - 1)"],
+        raises={"CancelledError": "True"},      # asyncio cancellation (a BaseException) propagates by design
+        split_exits=True, inline_calls=[WWS + ":WampWebSocketProtocol._bailout"], **common)
+    # ---- onClose: the session is told exactly once that the transport is gone, then detached
+    reg.contract(
+        WWS + ":WampWebSocketProtocol.onClose",
+        params={"self": "obj:WampWs", "wasClean": "bool", "code": "opt:int", "reason": "opt:str"},
+        modifies=["self._session", "self._onclose_reason", "ghost.n_onclose"],
+        ensures=["self._session is None",
+                 "implies(old(self._session) is not None, ghost.n_onclose == old(ghost.n_onclose) + 1)",
+                 "implies(old(self._session) is None, ghost.n_onclose == old(ghost.n_onclose))"], **common)
+    # ---- onOpen: session created and attached; a failing factory / onOpen fails the connection with 1011
+    reg.contract(
+        WWS + ":WampWebSocketProtocol.onOpen", params={"self": "obj:WampWs"},
+        modifies=["self._session", "WsSess._transport", "ghost.n_attach", "ghost.n_fail", "ghost.fail_code"],
+        ensures=["ghost.n_attach <= old(ghost.n_attach) + 1",
+                 "(ghost.n_fail == old(ghost.n_fail)) or (ghost.n_fail == old(ghost.n_fail) + 1 and ghost.fail_code == 1011)",
+                 "ghost.n_attach == old(ghost.n_attach) + 1 or ghost.n_fail == old(ghost.n_fail) + 1"],
+        inline_calls=[WWS + ":WampWebSocketProtocol._bailout"], **common)
+    # ---- close / abort (ITransport): TransportLost exactly without a session
+    reg.contract(
+        WWS + ":WampWebSocketProtocol.close", params={"self": "obj:WampWs"}, modifies=["ghost.n_sendclose"],
+        ensures=["old(self._session) is not None and ghost.n_sendclose == old(ghost.n_sendclose) + 1"],
+        raises={"TransportLost": "self._session is None"}, **common)
+    reg.contract(
+        WWS + ":WampWebSocketProtocol.abort", params={"self": "obj:WampWs"}, modifies=["ghost.n_fail", "ghost.fail_code"],
+        ensures=["old(self._session) is not None and ghost.n_fail == old(ghost.n_fail) + 1 and ghost.fail_code == 1001"],
+        raises={"TransportLost": "self._session is None"},
+        inline_calls=[WWS + ":WampWebSocketProtocol._bailout"], **common)
+
+    # ---- subprotocol negotiation.  parseSubprotocolIdentifier is an assumed pure function here (its result is named by
+    #      the uninterpreted sp_ok / sp_ver / sp_ser); it is checked separately by a bounded stand-in (extra_checks)
+    SP = z3.Function("sp_ok", z3.StringSort(), z3.BoolSort()), z3.Function("sp_ver", z3.StringSort(), z3.IntSort()), \
+        z3.Function("sp_ser", z3.StringSort(), z3.StringSort())
+    reg.native_spec("sp_ok", lambda ex, state, s_: VBool(SP[0](s_.t)))
+    reg.native_spec("sp_ver", lambda ex, state, s_: VInt(SP[1](s_.t)))
+    reg.native_spec("sp_ser", lambda ex, state, s_: VStr(SP[2](s_.t)))
+    reg.contract(
+        WWS + ":parseSubprotocolIdentifier", params={"subprotocol": "str"}, returns="tuple:opt:int,opt:str",
+        ensures=["(result[0] is None) == (not sp_ok(subprotocol)) and (result[1] is None) == (not sp_ok(subprotocol))",
+                 "implies(sp_ok(subprotocol), result[0] == sp_ver(subprotocol) and result[1] == sp_ser(subprotocol))"],
+        verify=False, **common)
+    reg.shapes["SerRec"].fields.update({"SERIALIZER_ID": "str"})
+    reg.shape("ConnReq", cls="autobahn.websocket.types:ConnectionRequest", fields={"protocols": "list:str"})
+    reg.shape("ConnResp", cls="autobahn.websocket.types:ConnectionResponse", fields={"protocol": "opt:str"})
+    reg.shapes["WsFactory"].fields.update({"protocols": "list:str"})
+    WSF = dict(reg.shapes["WampWs"].fields, STRICT_PROTOCOL_NEGOTIATION="bool")
+    reg.shape("WampWsServer", cls=WWS + ":WampWebSocketServerProtocol", fields=WSF, methods=reg.shapes["WampWs"].methods)
+    reg.shape("WampWsClient", cls=WWS + ":WampWebSocketClientProtocol", fields=WSF, methods=reg.shapes["WampWs"].methods)
+    ACC = "(sp_ok(%s) and sp_ver(%s) == 2 and sp_ser(%s) in self.factory._serializers)"
+    PR = "request.protocols"
+    KEYED = ("forall_s in self.factory._serializers", )
+    reg.contract(
+        WWS + ":WampWebSocketServerProtocol.onConnect", params={"self": "obj:WampWsServer", "request": "obj:ConnReq"},
+        returns="any",
+        requires=["implies(not self.STRICT_PROTOCOL_NEGOTIATION, 'json' in self.factory._serializers)"],
+        modifies=["self._serializer", "SerRec.*"],
+        ensures=[
+            # the selected subprotocol is the first one in the client's order of preference that the server speaks ...
+            "implies(result[0] is not None, exists(k, 0, len(%s), result[0] == %s[k] and %s and "
+            "forall(j, 0, k, not %s)))" % (PR, PR, ACC % ((PR + "[k]",) * 3), ACC % ((PR + "[j]",) * 3)),
+            # ... and this side then uses exactly that serializer
+            "implies(result[0] is not None, self._serializer is not None and self._serializer.SERIALIZER_ID == "
+            "self.factory._serializers[sp_ser(result[0])].SERIALIZER_ID)",
+            # nothing selected only when nothing is shared (lenient mode: wamp.2.json assumed, nothing announced)
+            "implies(result[0] is None, not self.STRICT_PROTOCOL_NEGOTIATION and "
+            "forall(j, 0, len(%s), not %s))" % (PR, ACC % ((PR + "[j]",) * 3))],
+        raises={"ConnectionDeny": "self.STRICT_PROTOCOL_NEGOTIATION and forall(j, 0, len(%s), not %s)"
+                                  % (PR, ACC % ((PR + "[j]",) * 3))},
+        loops={"target:subprotocol": {"index": "_i", "invariant": [
+            "forall(j, 0, _i, not %s)" % (ACC % ((PR + "[j]",) * 3))],
+            "modifies": [], "pure_calls": True}},
+        **common)
+    # ---- client: only a subprotocol it asked for is accepted; the serializer is the one that subprotocol names
+    FP = "self.factory.protocols"
+    reg.contract(
+        WWS + ":WampWebSocketClientProtocol.onConnect", params={"self": "obj:WampWsClient", "response": "obj:ConnResp"},
+        returns="none",
+        requires=["self.STRICT_PROTOCOL_NEGOTIATION",
+                  # factory invariant (WampWebSocketFactory.__init__): every offered subprotocol is wamp.2.<id> of a
+                  # configured serializer
+                  # (stated for the one element that matters: the subprotocol named in the response)
+                  "implies(response.protocol is not None and response.protocol in %s, %s)"
+                  % (FP, ACC % (("response.protocol",) * 3))],
+        modifies=["self._serializer", "SerRec.*"],
+        ensures=["response.protocol is not None and response.protocol in %s" % FP,
+                 "self._serializer is not None and self._serializer.SERIALIZER_ID == "
+                 "self.factory._serializers[sp_ser(response.protocol)].SERIALIZER_ID"],
+        raises={"Exception": "response.protocol is None or response.protocol not in %s" % FP}, **common)
+
+
+def _shift4(S, p):
+    T = z3.Extract(S, p, z3.Length(S) - p)
+    return z3.And(*[z3.Implies(z3.And(0 <= p, p + i < z3.Length(S)), T[i] == S[p + i]) for i in range(4)])
+
 
 def lem_seq_snoc(ex, state, lst, k):
     """instance of the sequence lemma  0 <= k < len(s)  ==>  s[0:k] + [s[k]] == s[0:k+1]  for a list value (any other
@@ -389,9 +825,61 @@ def lem_seq_snoc(ex, state, lst, k):
     return VBool(z3.And(*res) if res else z3.BoolVal(True))
 
 
+_PARSE_HARNESS = r"""
+import itertools, json, re
+from autobahn.wamp.websocket import parseSubprotocolIdentifier as parse
+def ref(s):
+    # wamp.<version>[.<serializer id with any further dots>]; the version is whatever int() accepts
+    m = re.fullmatch(r"wamp\.([^.]*)(?:\.(.*))?", s, re.S)
+    if not m:
+        return (None, None)
+    try:
+        v = int(m.group(1))
+    except ValueError:
+        return (None, None)
+    return (v, m.group(2) or "")
+cases = set()
+for pre in ("wamp", "wam", "wampx", "", "WAMP", "xwamp"):
+    for s1 in (".", ""):
+        for ver in ("2", "1", "02", "+2", " 2", "2x", "", "-2", "22", "2_0", "\u0662"):
+            for s2 in (".", ""):
+                for ser in ("json", "json.batched", "", "a.b.c", "msgpack", "."):
+                    cases.add(pre + s1 + ver + s2 + ser)
+for n in range(0, BOUND + 1):
+    for t in itertools.product("wamp.2", repeat=n):
+        cases.add("".join(t))
+bad = [c for c in sorted(cases) if parse(c) != ref(c)]
+print(json.dumps({"cases": len(cases), "bad": bad[:5]}))
+"""
+
+
+def _bounded_parse(tier):
+    import time
+    from pyvc import replaylib as R
+    bound = 5 if tier == "quick" else 7
+    t0 = time.time()
+    out = R.run_py(_PARSE_HARNESS.replace("BOUND", str(bound)), timeout=600)
+    ok = isinstance(out, dict) and out.get("bad") == []
+    return {"name": "C13/bounded/parseSubprotocolIdentifier", "kind": "bounded", "bounded": True,
+            "status": "proved" if ok else ("refuted" if isinstance(out, dict) and out.get("bad") else "unknown"),
+            "backend": "enumeration (bounded)", "time": round(time.time() - t0, 2),
+            "bound": "all strings over {w,a,m,p,.,2} up to length %d plus a token grid of prefixes/versions/serializers" % bound,
+            "cases": out.get("cases") if isinstance(out, dict) else None, "detail": json_dumps(out), "info": {}}
+
+
+def json_dumps(x):
+    import json
+    try:
+        return json.dumps(x)[:600]
+    except Exception:
+        return repr(x)[:600]
+
+
 def extra_checks(tier, seed):
     from pyvc.spec_tools import solve
     t = z3.Const("ls", z3.SeqSort(z3.IntSort()))
     k = z3.Int("lk")
     return [solve("C13/lemma/seq-snoc", [0 <= k, k < z3.Length(t)],
-                  z3.Concat(z3.Extract(t, 0, k), z3.Unit(t[k])) == z3.Extract(t, 0, k + 1), 20000)]
+                  z3.Concat(z3.Extract(t, 0, k), z3.Unit(t[k])) == z3.Extract(t, 0, k + 1), 20000),
+            solve("C13/lemma/seq-shift4", [], _shift4(t, k), 20000),
+            _bounded_parse(tier)]
